@@ -150,7 +150,7 @@ Section Obls.
     | EStar None => []
     | EStar (Some q) => [OStarQ sc cl q]
     | EApp _ a => o_exprs te sc al cl a
-    | EWin _ a p o => o_exprs te sc al cl a ++ o_exprs te sc al cl p ++ o_exprs te sc al cl o
+    | EWin _ a p o _ => o_exprs te sc al cl a ++ o_exprs te sc al cl p ++ o_exprs te sc al cl o
     | ESub q => o_query (hide_self te) sc q
     end
   with o_exprs (te : tenv) (sc : scope) (al : list name) (cl : clause) (x : exprs) {struct x} : list obl :=
@@ -289,7 +289,7 @@ Fixpoint r_expr (e : expr) {struct e} : list sref :=
   | EStar None => []
   | EStar (Some q) => [SStar q]
   | EApp _ a => r_exprs a
-  | EWin _ a p o => r_exprs a ++ r_exprs p ++ r_exprs o
+  | EWin _ a p o _ => r_exprs a ++ r_exprs p ++ r_exprs o
   | ESub q => r_query q
   end
 with r_exprs (x : exprs) {struct x} : list sref :=
